@@ -36,6 +36,40 @@ def rand_ext(rng, depth=0):
     return {rng.choice(["a", "b", "credProtect", 1, 2, -1, b"k"]): rand_ext(rng, depth + 1) for _ in range(rng.randrange(0, 4))}
 
 
+def exotic_cbor(rng):
+    """CBOR that cbor2 decodes through special paths: semantic tags over wrongly typed content, bignums, fractions,
+    half floats, simple values, indefinite lengths, deep nesting, huge declared lengths"""
+    t = rng.randrange(12)
+    if t == 0:   # tag n over a value of the wrong type
+        tag = rng.choice([0, 1, 2, 3, 4, 5, 28, 29, 30, 35, 36, 37, 100, 256, 258, 260, 261, 1004, 43000, 55799])
+        inner = rng.choice([b"\x03", b"\x63abc", b"\x41\x00", b"\x80", b"\xa0", b"\xf6", b"\x82\x01\x02", b"\x82\x01\x00", b"\x50" + bytes(16),
+                            b"\xf9\x7e\x00", b"\x20", b"\x82\x20\x00", b"\x83\x01\x02\x03"])
+        return cbor2.dumps(cbor2.CBORTag(tag, 0))[:-1] + inner
+    if t == 1:
+        return bytes([0xc0 + rng.randrange(24)]) + rng.bytes_(rng.randrange(0, 6))
+    if t == 2:
+        return bytes([rng.choice([0x9f, 0xbf, 0x5f, 0x7f])]) + rng.bytes_(rng.randrange(0, 6)) + rng.choice([b"", b"\xff"])
+    if t == 3:
+        return bytes([rng.choice([0xf8, 0xf9, 0xfa, 0xfb])]) + rng.bytes_(rng.randrange(0, 9))
+    if t == 4:
+        return bytes([0xe0 + rng.randrange(32)])
+    if t == 5:   # deep nesting (kept well below the interpreter's recursion limit)
+        d = rng.choice([10, 100, 400])
+        return b"\x81" * d + b"\x00"
+    if t == 6:
+        d = rng.choice([10, 100, 400])
+        return b"\xa1\x00" * d + b"\x00"
+    if t == 7:   # huge declared lengths
+        return bytes([rng.choice([0x5b, 0x7b, 0x9b, 0xbb])]) + rng.choice([b"\xff" * 8, b"\x00\x00\x00\x01\x00\x00\x00\x00", b"\x7f" + b"\xff" * 7]) + rng.bytes_(4)
+    if t == 8:   # unhashable / odd map keys
+        return rng.choice([b"\xa1\x80\x00", b"\xa1\xa0\x00", b"\xa1\x82\x01\x02\x00", b"\xa1\xf9\x7e\x00\x00", b"\xa2\x01\x02\xf5\x03"])
+    if t == 9:   # shared references / string references
+        return rng.choice([b"\xd8\x1c\x80", b"\xd8\x1d\x00", b"\xd8\x1d\x05", b"\xd9\x01\x00\x80", b"\xd8\x19\x00"])
+    if t == 10:  # invalid utf-8 text
+        return b"\x62\xc3\x28"
+    return rng.bytes_(rng.randrange(1, 12))
+
+
 def work(tasks, idx):
     res = Result()
     drv = Driver(Oracle()) if work.driver_ok else None
@@ -55,12 +89,27 @@ def work(tasks, idx):
             mode = rng.random()
             label = "canonical"
             b = ad
+            if rng.random() < 0.15:
+                # exotic CBOR where the credential key or the extensions are expected
+                junk = exotic_cbor(rng)
+                if rng.random() < 0.5:
+                    b = core.auth_data(rp, flags | 0x40, counter, aaguid=aaguid, cred_id=cid, cose=junk, ext=ext if flags & 0x80 else None)
+                else:
+                    b = core.auth_data(rp, flags | 0x80, counter, aaguid=aaguid, cred_id=cid, cose=cose, ext=junk)
+                mode, label = 1.0, "exotic-cbor"
             if mode < 0.25:
                 b, label = ad[:rng.randrange(0, len(ad))], "truncated"
             elif mode < 0.45:
                 b, label = ad + rng.bytes_(rng.randrange(1, 6)), "suffix"
             elif mode < 0.5:
                 b, label = rng.bytes_(rng.randrange(0, 120)), "random"
+            if label == "exotic-cbor" and rng.random() < 0.3:
+                from webauthn.helpers import parse_cbor as _pc
+                codec = corr.code_outcome(lambda: _pc(junk), lambda r: "ok")
+                res.evaluations += 1
+                if codec["k"] == "reject" and "nonlib" in codec:
+                    res.violations.append({"why": f"parse_cbor raised {codec['nonlib']}: {codec.get('msg')}", "b": junk.hex(),
+                                           "match": {"op": "parse_cbor", "rule": "library-exception"}})
             code = cases.code_parse_auth_data(b)
             res.evaluations += 1
             tie.check({"op": "parse_auth_data", "b": b.hex()}, code, label=[label, flags])
